@@ -44,3 +44,23 @@ pub struct Nested {
 #[derive(Serialize, Deserialize, Archive, Debug, Clone, PartialEq, Eq)]
 #[archive(check_bytes)]
 pub struct Unit;
+
+/// Roots with an alignment below 4 and a size that is not a multiple of 4 (the frame's trailer then follows a body
+/// whose length is odd or 2 mod 4).
+#[repr(C)]
+#[derive(Serialize, Deserialize, Archive, Debug, Clone, PartialEq, Eq)]
+#[archive(check_bytes)]
+pub struct Small {
+    pub a: u8,
+    pub flag: bool,
+    pub b: u8,
+}
+
+#[repr(C)]
+#[derive(Serialize, Deserialize, Archive, Debug, Clone, PartialEq, Eq)]
+#[archive(check_bytes)]
+pub struct Six {
+    pub bytes: [u8; 6],
+    pub tail: u16,
+    pub last: u8,
+}
